@@ -43,10 +43,11 @@ def run(tier):
     ids = "{0, 1}" if tier == "quick" else "{0, 1, 2}"
     c = os.path.join(vlib.scratch(), "cluster.cfg")
     open(c, "w").write("SPECIFICATION Spec\nCONSTANTS\n Nodes = {1, 2}\n Ids = %s\n Dynamic = %s\nINVARIANTS C16_NoCrossApply C16_SyncRejected\n" % (ids, "TRUE" if DYNAMIC else "FALSE"))
-    r = vlib.run_tlc("Cluster.tla", c, workers=6, timeout=1500)
+    r = vlib.run_tlc("Cluster.tla", c, workers=6, timeout=1800, budget=600)
     if r.error:
         raise vlib.ToolError("TLC Cluster: %s\n%s" % (r.error, r.output[-1200:]))
-    vlib.log("[C16] TLC Cluster: %d generated, %d distinct, violated=%s" % (r.generated, r.distinct, r.violated))
+    vlib.log("[C16] TLC Cluster: %d generated, %d distinct, violated=%s%s" % (r.generated, r.distinct, r.violated, " (time budget used up, exploration incomplete)" if r.budget_exhausted else ""))
+    cov["model_complete"] = not r.budget_exhausted
     cov["states"] = r.distinct; cov["transitions"] = r.generated
     if r.violated:
         mismatch.append("Cluster.tla violates %s" % r.violated)
